@@ -201,7 +201,56 @@ func HarnessC13Seq(n, hops int) {
 	verifrt.Cover("end", true)
 }
 
+// HarnessC16Seq: n requests one after the other on one connection (request objects recycled from one to
+// the next); each is, by the solver's choice, answered in time, or times out with the node's reply
+// arriving late - right away or only together with the next reply. Every timed-out request gets exactly
+// the timeout error, every other one its own reply, late replies vanish, the connection stays usable -
+// also for the second, third ... timeout of the run.
+func HarnessC16Seq(n int) {
+	o := core.VerifDefaultOptions()
+	o.RedisRequestTimeout = verifTimeoutMs
+	w, _ := verifWorld2(o)
+	c := w.NewClient("10.0.0.1:5000")
+	var want, owed []byte
+	for i := 0; i < n; i++ {
+		k := []byte{'{', 'b', '}', byte('0' + i), 'x'}
+		if i == n-1 {
+			k[4] = verifrt.Byte("key")
+		}
+		w.Feed(c, core.VerifEncode([]byte("get"), k))
+		w.RunTasks()
+		w.Timeout()
+		verifrt.Assert(len(w.ByAddr["A:1"]) == 1, "one_backend_connection")
+		s := w.ByAddr["A:1"][0]
+		own := bulk(k)
+		switch verifrt.Choice("outcome", 3) {
+		case 0: // in time (after whatever the node still owed for timed-out requests)
+			w.Feed(s, append(append([]byte{}, owed...), own...))
+			owed = nil
+			want = append(want, own...)
+		case 1: // times out; the node's reply comes later, together with the next one
+			verifrt.Sleep(verifTimeoutMs + 20)
+			w.Timeout()
+			want = append(want, "-ERR proxy request timeout\r\n"...)
+			owed = append(owed, own...)
+		case 2: // times out; the late reply follows at once
+			verifrt.Sleep(verifTimeoutMs + 20)
+			w.Timeout()
+			want = append(want, "-ERR proxy request timeout\r\n"...)
+			w.Feed(s, append(append([]byte{}, owed...), own...))
+			owed = nil
+		}
+		w.Timeout()
+		out := w.Sent(c)
+		verifrt.Assert(len(out) == len(want) && isPrefix(out, want), "C16_each_request_gets_its_own_reply_or_exactly_the_timeout_error")
+		verifrt.Assert(c.Opened() && !w.Shutdown && c.InMsgCount() == 0, "C16_connection_stays_usable")
+	}
+	verifrt.ObserveBytes("client", w.Sent(c))
+	verifrt.Cover("end", true)
+}
+
 func init() {
+	verifrt.Register("HarnessC16Seq", func(p []int64) { HarnessC16Seq(int(p[0])) })
 	verifrt.Register("HarnessC13Seq", func(p []int64) { HarnessC13Seq(int(p[0]), int(p[1])) })
 	verifrt.Register("HarnessC13", func(p []int64) { HarnessC13(int(p[0]), int(p[1])) })
 }
